@@ -136,9 +136,13 @@ class PoyntingFluxDetector(Detector):
         )
         if can_determine_axis:
             if self.keep_all_components:
+                # a face normal to `axis` has extent one along it: broadcast each to the region before stacking
                 weights = jnp.stack(
                     [
-                        _resolve_face_area_weights(self._config, self.grid_slice_tuple, axis, self.dtype)
+                        jnp.broadcast_to(
+                            _resolve_face_area_weights(self._config, self.grid_slice_tuple, axis, self.dtype),
+                            self.grid_shape,
+                        )
                         for axis in range(3)
                     ]
                 )
@@ -350,8 +354,15 @@ class PhasorPoyntingFluxDetector(PhasorDetector):
         self = super().place_on_grid(grid_slice_tuple=grid_slice_tuple, config=config, key=key)
         real_dtype = jnp.float64 if self.dtype == jnp.complex128 else jnp.float32
         if self.keep_all_components:
+            # a face normal to `axis` has extent one along it: broadcast each to the region before stacking
             weights = jnp.stack(
-                [_resolve_face_area_weights(self._config, self.grid_slice_tuple, axis, real_dtype) for axis in range(3)]
+                [
+                    jnp.broadcast_to(
+                        _resolve_face_area_weights(self._config, self.grid_slice_tuple, axis, real_dtype),
+                        self.grid_shape,
+                    )
+                    for axis in range(3)
+                ]
             )
         else:
             weights = _resolve_face_area_weights(self._config, self.grid_slice_tuple, self.propagation_axis, real_dtype)
